@@ -59,7 +59,7 @@ class C08(Prop):
     PROBES = ['crash-between-close-and-rename', 'crash-inside-last-resource', 'torn-write-landed', 'final-file-present-after-fault',
               'two-checkpoints-first-complete-second-not', 'fault-not-reached', 'io-error-at-rename', 'io-error-at-close',
               'recovery-from-complete-checkpoint', 'recovery-from-scratch', 'empty-resource', 'sweep-complete']
-    TIERS = {'quick': dict(runs=160, wall=100, run_wall=90),
+    TIERS = {'quick': dict(runs=700, wall=100, run_wall=90),
              'thorough': dict(runs=1500, wall=1500, run_wall=600)}
     SHRINK_FROZEN = ('fields',)
 
@@ -79,14 +79,18 @@ class C08(Prop):
                  'two': ['cp:a', 'mid', 'cp:b'], 'two-tail': ['cp:a', 'mid', 'cp:b', 'tail']}[shape]
         spec = {'tables': tabs, 'links': links}
         sc = {'spec': spec, 'bufsize': rng.choice([None, None, 16, 64, 256])}
-        sweep_p = 0.0 if tier == 'quick' else 0.25
+        sweep_p = 0.02 if tier == 'quick' else 0.25
         if rng.random() < sweep_p:
+            if tier == 'quick':     # keep quick sweeps small: <= 2 resources of <= 3 rows
+                spec['tables'] = [dict(t, rows=t['rows'][:3]) for t in tabs[:2]]
             sc['ops'] = [{'op': 'sweep'}]
             return sc
         ops = []
         nops = rng.choice([2, 2, 3, 4, 5])
         for _ in range(nops):
             r = rng.random()
+            if r < 0.70 and rng.random() < 0.5:
+                ops.append({'op': 'delete'})      # faults are only interesting while a checkpoint is being written
             if r < 0.45:
                 ops.append({'op': 'crash', 'kf': round(rng.random(), 4), 'when': rng.choice(WHENS), 'frac': round(rng.random(), 3)})
             elif r < 0.70:
